@@ -15,6 +15,8 @@ use p2panda_core::{Hash, Operation, Signature, SigningKey, VerifyingKey};
 use p2panda_store::SqliteStore;
 use vh_common::{Args, Report, Rng, json, permutations, quiet_panics};
 
+use crate::par::{Local, run_cases};
+
 use crate::common::*;
 
 #[derive(Clone, Copy, PartialEq, Eq, Debug)]
@@ -23,7 +25,7 @@ pub enum Mode {
     C05,
 }
 
-const RULE_C03: &str = "Histories: 2-4 honest authors x 1-3 logs x 3-12 operations with 0-3 prune points (extension = \
+const RULE_C03: &str = "Histories: 2-3 honest authors x 1-2 logs x 3-10 operations with 0-3 prune points (extension = \
 (log id, prune flag)), delivered in perturbed order (in-order interleaving with random swaps, full \
 shuffles, prune-segments reversed) with duplicates, dropped operations, forged copies (signature bit \
 flip, seq/backlink altered under the old signature, re-signed by an attacker key) and author-signed \
@@ -185,17 +187,19 @@ fn gen_history(rng: &mut Rng, mode: Mode, small: bool, case: u64) -> History {
     } else if mode == Mode::C05 {
         (1 + rng.usize_below(2), 1 + rng.usize_below(2))
     } else {
-        (2 + rng.usize_below(3), 1 + rng.usize_below(3))
+        (2 + rng.usize_below(2), 1 + rng.usize_below(2))
     };
     let authors: Vec<SigningKey> = (0..na).map(|_| key(rng)).collect();
     let logs: Vec<u64> = (0..nl as u64).map(|l| l * 7 + rng.below(3)).collect();
     let mut streams: Vec<Vec<Item>> = Vec::new();
+    // The attacker must not equivocate either: at most one re-signed copy per (log, seq).
+    let mut attacker_used: HashSet<(u64, u32)> = HashSet::new();
     for a in &authors {
         for l in &logs {
             let stream = streams.len();
             let (n, np) = match (mode, small) {
                 (Mode::C03, true) => (3 + rng.usize_below(2), rng.usize_below(2)),
-                (Mode::C03, false) => (3 + rng.usize_below(10), rng.usize_below(4)),
+                (Mode::C03, false) => (3 + rng.usize_below(8), rng.usize_below(4)),
                 (Mode::C05, true) => (4 + rng.usize_below(2), 2),
                 (Mode::C05, false) => (5 + rng.usize_below(8), 2 + rng.usize_below(3)),
             };
@@ -221,8 +225,12 @@ fn gen_history(rng: &mut Rng, mode: Mode, small: bool, case: u64) -> History {
                     extra_budget -= 1;
                 }
                 if mode == Mode::C03 && extra_budget > 0 && rng.chance(if small { 0.3 } else { 0.2 }) {
-                    items.extend(forged_copies(rng, op, &attacker, stream));
-                    extra_budget -= 1;
+                    if let Some(f) = forged_copies(rng, op, &attacker, stream) {
+                        if f.kind != Kind::ForgedResign || attacker_used.insert((*l, f.op.header.seq_num)) {
+                            items.push(f);
+                            extra_budget -= 1;
+                        }
+                    }
                 }
             }
             if mode == Mode::C03 && extra_budget > 0 && rng.chance(0.6) {
@@ -366,7 +374,7 @@ struct Watch {
 
 #[allow(clippy::too_many_arguments)]
 async fn observe_log(
-    rep: &mut Report,
+    rep: &mut Local,
     mode: Mode,
     store: &SqliteStore,
     model: &Model,
@@ -500,7 +508,7 @@ async fn observe_log(
 }
 
 async fn run_history(
-    rep: &mut Report,
+    rep: &mut Local,
     mode: Mode,
     store: &SqliteStore,
     hist: &History,
@@ -616,7 +624,7 @@ async fn run_history(
     st
 }
 
-fn close(rep: &mut Report, mode: Mode, st: &RunStats) {
+fn close(rep: &mut Local, mode: Mode, st: &RunStats) {
     let nontrivial = match mode {
         Mode::C03 => st.out_of_order && st.accepted > 0 && st.rejected > 0,
         Mode::C05 => st.late_older_prune,
@@ -633,55 +641,57 @@ pub fn run(args: &Args, mode: Mode) {
     };
     let mut rep = Report::new(args, rule, min);
     let histories = match mode {
-        Mode::C03 => args.n(400, 20_000),
-        Mode::C05 => args.n(300, 20_000),
+        Mode::C03 => args.n(260, 12_000),
+        Mode::C05 => args.n(260, 20_000),
     };
-    let small_sets = args.n(3, 60);
+    let small_sets = args.n(2, 40);
     let tmp = tempfile::tempdir().expect("tempdir");
-    let rt = runtime();
-    rt.block_on(async {
-        // Exhaustive delivery orders of small single-log histories on one re-used store.
-        let store = SqliteStore::temporary().await;
-        let mut perms_run = 0u64;
-        for s in 0..small_sets {
-            let mut rng = Rng::fork(args.seed ^ 0x5111, s);
-            let hist = gen_history(&mut rng, mode, true, s);
-            let n = hist.items.len();
-            for (pi, p) in permutations(n).into_iter().enumerate() {
-                if let Err(e) = wipe(&store).await {
-                    rep.inconclusive(format!("wipe failed: {e}"));
+    let dir = tmp.path();
+    run_cases(args, &mut rep, small_sets + histories, |rep, case, rt| {
+        rt.block_on(async {
+            if case < small_sets {
+                // Every delivery order of a small single-log history, on one re-used store.
+                let s = case;
+                let store = SqliteStore::temporary().await;
+                let mut rng = Rng::fork(args.seed ^ 0x5111, s);
+                let hist = gen_history(&mut rng, mode, true, s);
+                let n = hist.items.len();
+                for (pi, p) in permutations(n).into_iter().enumerate() {
+                    if let Err(e) = wipe(&store).await {
+                        rep.inconclusive(format!("wipe failed: {e}"));
+                    }
+                    let tag = json!({"seed": args.seed, "small_set": s, "permutation": pi, "order": p});
+                    let st = run_history(rep, mode, &store, &hist, &p, &tag).await;
+                    close(rep, mode, &st);
+                    rep.bump("small_history_orders_run", 1);
                 }
-                let tag = json!({"seed": args.seed, "small_set": s, "permutation": pi, "order": p});
-                let st = run_history(&mut rep, mode, &store, &hist, &p, &tag).await;
-                close(&mut rep, mode, &st);
-                perms_run += 1;
+                store.pool().close().await;
+                return;
             }
-        }
-        rep.extra("small_histories_all_permutations", json!({"sets": small_sets, "orders_run": perms_run}));
-
-        for c in 0..histories {
+            let c = case - small_sets;
             let mut rng = Rng::fork(args.seed, c);
             let hist = gen_history(&mut rng, mode, false, c);
-            let path = tmp.path().join(format!("h{c}.sqlite"));
+            let path = dir.join(format!("h{c}.sqlite"));
             let store = new_store(hist.file_db.then_some(path.as_path())).await;
             if hist.file_db {
                 rep.bump("histories_on_file_db", 1);
             }
             let order: Vec<usize> = (0..hist.items.len()).collect();
             let tag = json!({"seed": args.seed, "history": c, "file_db": hist.file_db});
-            let st = run_history(&mut rep, mode, &store, &hist, &order, &tag).await;
+            let st = run_history(rep, mode, &store, &hist, &order, &tag).await;
             if rep.want_sample() && c % 97 == 3 {
                 rep.sample(json!({
                     "history": c,
                     "trace": st.trace.iter().map(|t| format!("a{} l{} s{} {:?} {}", t.0, t.1, t.2, t.3, t.4)).collect::<Vec<_>>(),
                 }));
             }
-            close(&mut rep, mode, &st);
+            close(rep, mode, &st);
             store.pool().close().await;
             if hist.file_db {
                 let _ = std::fs::remove_file(&path);
             }
-        }
+        })
     });
+    rep.extra("small_history_sets_all_permutations", json!(small_sets));
     rep.finish(args);
 }
